@@ -10,7 +10,7 @@ import (
 
 func init() {
 	register(&Rule{ID: "R40", Name: "CALLBACK-ORDER", Floor: 30,
-		Text: "every call of a user-supplied function value (a func-typed parameter, or a type assertion/switch on an interface-typed parameter such as Instruction.Fn, Filter.Comparator, Aggregation.Fn) in the column packages and the root package happens inside a loop, and every loop enclosing it ranges over a row index (index.Int, index.Bool or []index.Int): the callback runs once per row of the frame, in frame order, never per physical slot or per distinct value; and, except in filter kernels that range over the boolean accumulator and skip rows already decided, the call dominates every back edge of its innermost row loop, so no row is skipped (null rows included) and no result is reused from another row",
+		Text: "every call of a user-supplied function value (a func-typed parameter, or a type assertion/switch on an interface-typed parameter such as Instruction.Fn, Filter.Comparator, Aggregation.Fn) in the column packages and the root package happens inside a loop, and every loop enclosing it ranges over a row index (index.Int, index.Bool or []index.Int): the callback runs once per row of the frame, in frame order, never per physical slot or per distinct value; and, except in filter kernels that range over the boolean accumulator and skip rows already decided, every path through an iteration of its innermost row loop passes a call of that function value (one call, or one per branch), so no row is skipped (null rows included) and no result is reused from another row",
 		Run:  runR40})
 	register(&Rule{ID: "R42", Name: "ROW-ALIGN", Floor: 80,
 		Text: "(6b) a fresh slice written at physical positions is allocated with the column's physical length (len of column storage or a Column.Len()), not the index length; (6c) a value stored at position p (or at row k of a boolean index) is computed only from cells read at that same position p (resp. at index[k] for the same k): source and destination are the same row",
@@ -179,6 +179,31 @@ func runR40(c *Ctx) {
 					inner = li
 				}
 			}
+			// the calls of the same function value in this loop (a null branch and a non-null branch may each call it)
+			sameFn := map[*ssa.BasicBlock]bool{in.Block(): true}
+			eachInstr(fn, func(i2 ssa.Instruction) {
+				c2, ok := i2.(ssa.CallInstruction)
+				if ok && c2.Common().Value == cc.Value && inLoop(*inner, i2.Block()) {
+					sameFn[i2.Block()] = true
+				}
+			})
+			coveredLatch := func(pred *ssa.BasicBlock) bool {
+				if sameFn[pred] {
+					return true
+				}
+				// is pred reachable from the loop body without passing a call of the function?
+				for _, succ := range inner.header.Succs {
+					if !inLoop(*inner, succ) || succ == inner.header {
+						continue
+					}
+					for _, rb := range reachableAvoiding(succ, func(b *ssa.BasicBlock) bool { return sameFn[b] || b == inner.header || !inLoop(*inner, b) }) {
+						if rb == pred {
+							return false
+						}
+					}
+				}
+				return true
+			}
 			for _, pred := range inner.header.Preds {
 				if inner.base != nil && isBoolIndex(inner.base.Type()) {
 					break // filter kernels range over the boolean accumulator and skip rows already decided (R3)
@@ -186,7 +211,7 @@ func runR40(c *Ctx) {
 				if !inner.header.Dominates(pred) {
 					continue // loop entry edge
 				}
-				if !(in.Block() == pred || in.Block().Dominates(pred)) {
+				if !coveredLatch(pred) {
 					c.bad(key, pos, fmt.Sprintf("user callback (%s) is not invoked on every iteration of its row loop: an iteration can reach the next one (via %s) without the call - rows are skipped or results are memoised per value", how, p.pos(pred.Instrs[len(pred.Instrs)-1].Pos())))
 					return
 				}
